@@ -571,15 +571,18 @@ func main() {
 	nPer := run.Pick(40, 1000)
 	for _, ml := range maxLens {
 		protocol.SetMaxPackageLength(ml)
-		servers := []*server{startServer(0), startServer(1)}
-		// ---- regular scenarios, server side (sequential per server, the two servers in parallel) ----
+		// ---- regular scenarios, server side: sequential per server (its recorder is per server); one
+		// server per pool setting in quick, four replicas of each in thorough, all in parallel ----
+		replicas := run.Pick(1, 4)
 		var wg sync.WaitGroup
-		for si, srv := range servers {
+		for sj := 0; sj < 2*replicas; sj++ {
+			si, rep := sj%2, sj/2
+			srv := startServer(si)
 			wg.Add(1)
-			go func(si int, srv *server) {
+			go func(si, rep int, srv *server) {
 				defer wg.Done()
-				rr := rand.New(rand.NewSource(run.Seed*7919 + int64(ml) + int64(si)))
-				for k := 0; k < nPer; k++ {
+				rr := rand.New(rand.NewSource(run.Seed*7919 + int64(ml) + int64(si) + int64(rep)*1000003))
+				for k := rep; k < nPer; k += replicas {
 					n := []int{1, 2, 3, 5, 10, 40, 200}[k%7]
 					kind := cutKinds[k%len(cutKinds)]
 					withMax := k%10 == 3
@@ -600,34 +603,36 @@ func main() {
 					sc := scenario{ID: si*100000 + k, Side: "server", MaxLen: ml, Sizes: sizes, CutKind: kind, Pace: netlab.Pace(k % 3), Illegal: -1, Pool: si}
 					serverScenario(srv, sc, rr)
 				}
-			}(si, srv)
+			}(si, rep, srv)
 		}
 		// ---- client side ----
-		wg.Add(1)
-		go func() {
-			defer wg.Done()
-			rr := rand.New(rand.NewSource(run.Seed*104729 + int64(ml)))
-			for k := 0; k < nPer; k++ {
-				n := []int{1, 2, 3, 5, 10, 40, 120}[k%7]
-				kind := cutKinds[(k+3)%len(cutKinds)]
-				withMax := k%10 == 5
-				if ml >= 1<<20 && withMax {
-					n = 2
-				}
-				if kind == "single-bytes" && n > 10 {
-					n = 10
-				}
-				sizes := sizesFor(rr, ml, n, withMax)
-				if kind == "single-bytes" {
-					for i := range sizes {
-						if sizes[i] > 6000 {
-							sizes[i] = 4 + sizes[i]%6000
+		for rep := 0; rep < replicas; rep++ {
+			wg.Add(1)
+			go func(rep int) {
+				defer wg.Done()
+				rr := rand.New(rand.NewSource(run.Seed*104729 + int64(ml) + int64(rep)*1000003))
+				for k := rep; k < nPer; k += replicas {
+					n := []int{1, 2, 3, 5, 10, 40, 120}[k%7]
+					kind := cutKinds[(k+3)%len(cutKinds)]
+					withMax := k%10 == 5
+					if ml >= 1<<20 && withMax {
+						n = 2
+					}
+					if kind == "single-bytes" && n > 10 {
+						n = 10
+					}
+					sizes := sizesFor(rr, ml, n, withMax)
+					if kind == "single-bytes" {
+						for i := range sizes {
+							if sizes[i] > 6000 {
+								sizes[i] = 4 + sizes[i]%6000
+							}
 						}
 					}
+					clientScenario(scenario{ID: 500000 + k, Side: "client", MaxLen: ml, Sizes: sizes, CutKind: kind, Pace: netlab.Pace((k + 1) % 3), Illegal: -1}, rr)
 				}
-				clientScenario(scenario{ID: 500000 + k, Side: "client", MaxLen: ml, Sizes: sizes, CutKind: kind, Pace: netlab.Pace((k + 1) % 3), Illegal: -1}, rr)
-			}
-		}()
+			}(rep)
+		}
 		wg.Wait()
 		// ---- illegal prefixes (each costs >= 0.5 s of the server's own close polling): in parallel ----
 		illegal := []int64{0, 1, 3, int64(ml) + 1, 1 << 31, 1<<32 - 1}
